@@ -476,6 +476,14 @@ def build_table(spec):
                      ratio=c["ratio"], max_width=c["max_width"], width=c["width"], min_width=c["min_width"],
                      no_wrap=c["no_wrap"], style=c.get("style"))
     for i, r in enumerate(spec["rows"]):
+        if spec.get("rejected_row_before") == i:
+            # the program tries to add a row one of whose cells is not renderable, catches the error and goes on:
+            # the table is as if that call had never been made
+            from rich.errors import NotRenderableError
+            try:
+                t.add_row("rejected", *([12345] * max(1, len(t.columns) - 1)))
+            except NotRenderableError:
+                pass
         if late is not None and i == late["after_rows"]:
             _add_late_column(t, late)
         t.add_row(*[build(c) for c in r["cells"]], style=r["style"], end_section=r["end_section"])
